@@ -78,12 +78,20 @@ class EnergyHistories(common.Suite):
         for i in range(n):
             case = machine.gen_case(rng, enss[i % len(enss)], tier)
             case["style"] = STYLES[(i // len(enss)) % len(STYLES)]
+            case["warm"] = rng.random() < 0.3
+            if case["warm"] and case["trials"]:
+                case["trials"][0]["verdict"] = rng.random() < 0.3  # mostly: the first completed trial is rejected
             yield case
 
     def real(self, case):
-        sim = machine.Sim(case, calc_factory(case["style"]))
+        def warm(sim):
+            # what `from_dict` on a restart file does: the reference energy is known, the calculator is fresh
+            if hasattr(sim.mc.context, "last_potential_energy"):
+                sim.mc.context.last_potential_energy = fresh_energy(sim.atoms)
+
+        sim = machine.Sim(case, calc_factory(case["style"]), pre_validate=warm if case.get("warm") else None)
         out = {"lines": [], "outcomes": [], "checks": []}
-        ev0 = sim.calc.nevals
+        ev0 = sim.calc.nevals - (1 if case.get("warm") else 0) * 0
         for k, tr in enumerate(case["trials"]):
             ev_before = sim.calc.nevals
             try:
@@ -171,5 +179,62 @@ class EnergyHistories(common.Suite):
         return None
 
 
+class ConstraintEnergyHistories(common.Suite):
+    """a constraint that contributes to the potential energy (ASE Hookean): the reported energy and the reference energy
+    must both be the FULL potential energy of the current atoms (calculator + constraint), as a from-scratch evaluation
+    of a copy gives it. No model (non-integer energies); oracle only."""
+
+    name = "constraint-energy-histories"
+
+    def cases(self, rng, tier):
+        n = 100 if tier == "quick" else 2000
+        for i in range(n):
+            case = machine.gen_case(rng, "canonical", tier)
+            case["fixed"] = None
+            case["hookean"] = [0, 1, rng.choice([0.5, 2.0, 5.0]), rng.choice([0.5, 1.0, 2.0])]
+            for tr in case["trials"]:
+                tr["verdict"] = rng.random() < 0.6
+            yield case
+
+    def real(self, case):
+        from ase.constraints import Hookean
+
+        def add_constraint(sim):
+            a1, a2, k, rt = case["hookean"]
+            sim.atoms.set_constraint(Hookean(a1=a1, a2=a2, k=k, rt=rt))
+
+        sim = machine.Sim(case, calc_factory("caching"), pre_validate=add_constraint)
+        out = {"outcomes": [], "checks": []}
+        for k, tr in enumerate(case["trials"]):
+            try:
+                o = sim.run_trial(tr)
+                reported = sim.atoms.get_potential_energy()
+            except Exception as ex:  # noqa: BLE001
+                out["exception"] = type(ex).__name__
+                out["message"] = str(ex)[:300]
+                out["exception_at"] = k
+                break
+            c = sim.mc.context
+            out["outcomes"].append(o)
+            out["checks"].append({"reported": float(reported), "reference": float(c.last_potential_energy),
+                                  "fresh": float(fresh_energy(sim.atoms))})
+        return out
+
+    def oracle(self, case, obs):
+        out = []
+        if "exception" in obs:
+            out.append((f"exception:{c03.trial_sig(case, obs['exception_at'])}:{obs['exception']}", obs["message"]))
+        for k, ch in enumerate(obs["checks"]):
+            what = {"T": "accepted", "F": "rejected", "N": "failed"}[obs["outcomes"][k]]
+            if not common.close(ch["reported"], ch["fresh"], 1e-12, 1e-12):
+                out.append((f"energy:reported-stale:constraint-energy:{what}", f"trial {k}: reports {ch['reported']}, from scratch {ch['fresh']}"))
+            if not common.close(ch["reference"], ch["fresh"], 1e-12, 1e-12):
+                out.append((f"energy:reference-stale:constraint-energy:{what}", f"trial {k}: reference {ch['reference']}, from scratch {ch['fresh']}"))
+        return out[:4]
+
+    def classify(self, case, obs):
+        return "".join(sorted(set(obs.get("outcomes", [])))) or None
+
+
 def suites(tier):
-    return [EnergyHistories()]
+    return [EnergyHistories(), ConstraintEnergyHistories()]
